@@ -6,6 +6,7 @@ import ProfiVerif.Lemmas.StationWho
 import ProfiVerif.Lemmas.StationMark
 import ProfiVerif.Lemmas.StationHandshake
 import ProfiVerif.Lemmas.TimedRing2Step
+import ProfiVerif.Lemmas.TimedRingNSys
 
 namespace PV.C01
 open PV
@@ -846,5 +847,256 @@ example : GoodRun cfg2 (fun j => if j = 0 then 3 else 5) net0 0 (net0.bus.txEnd 
   two_station_ring_run cfg2 cfg2_ok _ net0 view0 rinv0
     (by intro j hj; have : j = 0 ∨ j = 1 := by omega
         rcases this with rfl | rfl <;> rfl) evs0 sched0
+
+/-! ## Whole runs of a stable ring of N ≥ 2 stations on the byte-accurate bus
+
+N station models on the bus of `Model/Net.lean`; stable ring with member list `M` (`RingCfg`: the stations'
+addresses are exactly the members, pairwise different, at least two), every station has a valid LAS equal
+to `M` (`RingView`), no application traffic.  New with respect to the two-station case is the THIRD PARTY:
+a station that is neither sender nor addressee may lag behind by any number of telegrams; at a poll it gets
+the rest of the telegram it was in, whole telegrams and possibly a trailing fragment in one batch
+(`listener_step`): it witnesses the passes (its LAS stays `M`), answers nothing, and accepts the token only
+when it is addressed to it — then it is the last telegram of the batch.  `NInv` is the invariant (the station
+whose turn it is with its phase `hold`/`gap`/`pass`; for every other station the listener condition `LOk`:
+what it has consumed, what is in its buffer, its deadline).  Hypotheses: `cfg.Ok` (the handshake margin
+`2 + 2P + bits 33 + ⌈11 bit⌉ ≤ Tslot`), `P ≤ 100 ms` (the bus model forgets transmissions after 100 ms), every
+`Tto ≥ Tslot + 2P + bits 33 + ⌈11 bit⌉ + 2` (in `StOkN`), the schedule `SchedN`. -/
+
+/-- **`n_station_ring_run`** — every schedule, every length of run, any N ≥ 2: every poll returns regularly;
+only the station whose turn it is transmits (no claim, retry or reply); every transmission starts later than
+33 bit times after the end of the previous one (no overlap; synchronisation pause); each transmission is a
+GAP request to a non-member address (the turn stays) or the token to the cyclic successor in the ascending
+member list (the turn passes to it: `ascending_rotation`).  (`GoodRunN`.) -/
+theorem n_station_ring_run (cfg : Cfg) (hok : cfg.Ok) (hP100 : cfg.P ≤ 100000) (M : List Nat) (adr : Nat → Nat)
+    (n : Net) (v : NView) (h : NInv cfg M adr n v) (hna : NoApps n) (hpl : v.ph.plain)
+    (evs : List (Nat × Int)) (hs : SchedN cfg.P n v.tl evs) :
+    GoodRunN cfg M adr n (v.turn M adr) (cEnd cfg v.tr) evs :=
+  ringN_run hok hP100 M adr evs n v h hna hpl hs
+
+/-- **`n_station_ring_run_apps`** — the same WITH application traffic: every station has an arbitrary list of
+applications with arbitrary scripts whose telegrams satisfy `AppP` (destination and source address below 128,
+anything but an FDL status request — requests with or without reply, to member addresses, which do not
+answer application requests, or to absent addresses) and the encoder's length limit (`ScriptsOk`, in the
+station invariant).  Inside a token hold the holder sends application telegrams (`holdT`: no reply expected,
+the hold continues after the synchronisation pause; `await a`: the reply never comes, after the slot time the
+application gets its `timeout` and the hold continues in the same poll), then a GAP request or the token, as
+the hold-time logic decides.  For every schedule and every length of run: every poll returns regularly, only
+the station whose turn it is transmits, every transmission starts at least 33 bit times after the end of the
+previous one (strictly later after another station's transmission), the token goes round in ascending
+cyclic order, nobody claims, retries or replies (`GoodRunA`). -/
+theorem n_station_ring_run_apps (cfg : Cfg) (hok : cfg.Ok) (hP100 : cfg.P ≤ 100000) (M : List Nat) (adr : Nat → Nat)
+    (n : Net) (v : NView) (h : NInv cfg M adr n v) (evs : List (Nat × Int)) (hs : SchedN cfg.P n v.tl evs) :
+    GoodRunA cfg M adr n (v.turn M adr) (cEnd cfg v.tr) v.tr.sender evs :=
+  ringA_run hok hP100 M adr evs n v h hs
+
+/-- The invariant holds again after every scheduled run. -/
+theorem n_station_ring_inv (cfg : Cfg) (hok : cfg.Ok) (hP100 : cfg.P ≤ 100000) (M : List Nat) (adr : Nat → Nat)
+    (n : Net) (v : NView) (h : NInv cfg M adr n v) (evs : List (Nat × Int)) (hs : SchedN cfg.P n v.tl evs) :
+    ∃ v', NInv cfg M adr (n.afterN evs) v' :=
+  ringN_inv_run hok hP100 M adr evs n v h hs
+
+/-- One event preserves the invariant. -/
+theorem n_station_ring_step (cfg : Cfg) (hok : cfg.Ok) (hP100 : cfg.P ≤ 100000) (M : List Nat) (adr : Nat → Nat)
+    (n : Net) (v : NView) (h : NInv cfg M adr n v) (i : Nat) (now : Int) (e : EvOkN cfg n v.tl i now) :
+    NStepOut cfg M adr n v i now :=
+  ringN_step h hok hP100 i now e
+
+/-- Silence bound: at every event the end of the last transmission lies at most `Tslot + 2P + bits 33` back;
+every token-lost time-out is longer, so nobody claims. -/
+theorem n_station_ring_silence (cfg : Cfg) (hok : cfg.Ok) (M : List Nat) (adr : Nat → Nat) (n : Net) (v : NView)
+    (h : NInv cfg M adr n v) (i : Nat) (now : Int) (e : EvOkN cfg n v.tl i now) :
+    now ≤ cEnd cfg v.tr + (cfg.gmax : Nat) :=
+  ringN_silence h hok i now e
+
+/-- The token goes round in ascending cyclic order: the station the turn passes to is the next larger
+member, or — from the largest — the smallest. -/
+theorem ascending_rotation (M : List Nat) (a : Nat) (ha : a ∈ M) :
+    TokenRing.cycSucc a M ∈ M ∧
+    ((∃ b ∈ M, a < b) → a < TokenRing.cycSucc a M ∧ ∀ b ∈ M, a < b → TokenRing.cycSucc a M ≤ b) ∧
+    ((∀ b ∈ M, b ≤ a) → ∀ b ∈ M, TokenRing.cycSucc a M ≤ b) := by
+  have hs := TokenRing.cycSucc_spec a M
+  exact ⟨TokenRing.cycSucc_mem a M ha, fun h => (hs.above h).2, fun h => (hs.wrap h ⟨a, ha⟩).2⟩
+
+/-- The schedule condition is a condition on poll times only. -/
+theorem scheduleN_of_times (P : Nat) (evs : List (Nat × Int)) (n : Net) (tl : Int)
+    (h : SchedNT P n.stations.length n.bus.seen tl evs) : SchedN P n tl evs :=
+  schedN_of_times P evs n tl h
+
+/-! Non-vacuity for N = 3: stations 3, 5, 7 (indices 0, 1, 2) at 500 kbit/s.  Station 3 passed the token at time 0,
+station 5 accepted it at 70 µs and holds it; station 3 supervises its pass, station 7 (a third party) has
+overheard the pass completely at its poll at 68 µs. -/
+def M3 : List Nat := [3, 5, 7]
+def adr3 (i : Nat) : Nat := M3.getD i 0
+
+open TokenRing in
+def ring3 (ts : Nat) : TokenRing :=
+  updateNextPrev { active := Vector.ofFn fun i => decide (i.val ∈ M3), las := .valid, ts := ts, ns := ts, ps := ts }
+
+open TokenRing in
+theorem ring3_view (ts : Nat) (hts : ts ∈ M3) : RingView M3 ts (ring3 ts) := by
+  refine ⟨⟨by simp [M3], ⟨by decide, by decide, trivial⟩, by decide⟩, hts, (updateNextPrev_las _).2, (updateNextPrev_las _).1, ?_,
+    updateNextPrev_nbr _⟩
+  intro a ha
+  unfold ring3
+  rw [updateNextPrev_active]
+  simp [isActive, ha]
+
+theorem ring3_ok (ts : Nat) (hts : ts < 128) : TokenRing.RingOk (ring3 ts) := by
+  have := TokenRing.upd_ok { active := Vector.ofFn fun i => decide (i.val ∈ M3), las := .valid, ts := ts, ns := ts, ps := ts }
+    (Vector.ofFn fun i => decide (i.val ∈ M3)) ⟨hts, hts⟩
+  exact this.1
+
+def p7 : Params := { pEx with address := 7 }
+def s3a : Station :=
+  { (Station.new pEx) with online := true, st := .checkTokenPass .first, lastBusActivity := some 66, ring := ring3 3 }
+def s3b : Station :=
+  { (Station.new pA) with online := true, st := .useToken ⟨70, none⟩ false, lastBusActivity := some 70, ring := ring3 5 }
+def s3c : Station :=
+  { (Station.new p7) with online := true, st := .activeIdle none none 0, lastBusActivity := some 68, ring := ring3 7 }
+
+theorem s3a_inv : Inv s3a [] := by
+  have h := inv_new pEx [] (by decide) (by decide) (by intro s hs; cases hs)
+  exact ⟨h.addr, h.hsa, ring3_ok 3 (by decide), fun ho => by simp [s3a] at ho, h.gap, fun a ha => by simp [s3a] at ha,
+    fun a ha => by simp [s3a] at ha, h.app, fun a d ha => by simp [s3a] at ha, h.scripts, by simp [s3a]⟩
+theorem s3b_inv : Inv s3b [] := by
+  have h := inv_new pA [] (by decide) (by decide) (by intro s hs; cases hs)
+  exact ⟨h.addr, h.hsa, ring3_ok 5 (by decide), fun ho => by simp [s3b] at ho, h.gap, fun a ha => by simp [s3b] at ha,
+    fun a ha => by simp [s3b] at ha, h.app, fun a d ha => by simp [s3b] at ha, h.scripts, by simp [s3b]⟩
+theorem s3c_inv : Inv s3c [] := by
+  have h := inv_new p7 [] (by decide) (by decide) (by intro s hs; cases hs)
+  exact ⟨h.addr, h.hsa, ring3_ok 7 (by decide), fun ho => by simp [s3c] at ho, h.gap, fun a ha => by simp [s3c] at ha,
+    fun a ha => by simp [s3c] at ha, h.app, fun a d ha => by simp [s3c] at ha, h.scripts, by simp [s3c]⟩
+
+def tok3 : Transmission := { start := 0, sender := 0, bytes := StationGap.tokenBytes 5 3, dropped := false }
+def ns3a : NetStation := { s := s3a, apps := [], online := true }
+def ns3b : NetStation := { s := s3b, apps := [], online := true }
+def ns3c : NetStation := { s := s3c, apps := [], online := true }
+def net3 : Net := { bus := { rate := 500000, txs := [tok3], seen := [0, 70, 68] }, stations := [ns3a, ns3b, ns3c] }
+def view3 : NView := { x := 1, sx := ns3b, pre := [], tr := tok3, ph := .hold 70, H := 236, Lo := 136, tl := 70 }
+
+theorem ringCfg3 : RingCfg M3 adr3 3 :=
+  ⟨⟨by simp [M3], ⟨by decide, by decide, trivial⟩, by decide⟩, by decide,
+    (by
+      intro i j hi hj he
+      have hi' : i = 0 ∨ i = 1 ∨ i = 2 := by omega
+      have hj' : j = 0 ∨ j = 1 ∨ j = 2 := by omega
+      rcases hi' with rfl | rfl | rfl <;> rcases hj' with rfl | rfl | rfl <;> simp [adr3, M3] at he ⊢),
+    by decide, by decide⟩
+
+theorem stok3a : StOkN cfg2 M3 ns3a 3 := ⟨rfl, rfl, (fun s hs => by cases hs), s3a_inv, rfl, rfl, rfl, rfl, ring3_view 3 (by decide), by decide⟩
+theorem stok3b : StOkN cfg2 M3 ns3b 5 := ⟨rfl, rfl, (fun s hs => by cases hs), s3b_inv, rfl, rfl, rfl, rfl, ring3_view 5 (by decide), by decide⟩
+theorem stok3c : StOkN cfg2 M3 ns3c 7 := ⟨rfl, rfl, (fun s hs => by cases hs), s3c_inv, rfl, rfl, rfl, rfl, ring3_view 7 (by decide), by decide⟩
+
+theorem tok3_not (j : Nat) (hj : adr3 j ≠ 5) (hj' : adr3 j < 256) : ∀ a, tok3.bytes ≠ StationGap.tokenBytes (adr3 j) a := by
+  intro a hb
+  exact hj (tokenBytes_adr_inj 5 3 (adr3 j) a (by decide) hj' hb).symm
+
+theorem ninv3 : NInv cfg2 M3 adr3 net3 view3 := by
+  refine ⟨ringCfg3, by decide, rfl, stok3b, ⟨rfl, rfl, rfl, rfl, List.pairwise_singleton _ _, ?_, ?_⟩, rfl, ?_, ?_, ?_, ?_, ?_,
+    rfl, rfl, ?_⟩
+  · intro t ht; simp only [net3, List.mem_singleton] at ht; subst ht; rfl
+  · intro t ht; simp only [net3, List.mem_singleton] at ht; subst ht
+    exact ⟨0, by decide, rfl, .inl (by decide)⟩
+  · intro o ho; simp only [net3, List.mem_singleton] at ho; subst ho; right; decide
+  · intro l hl o ho hs; simp only [net3, List.mem_singleton] at ho; subst ho; cases hs
+  · intro j hj hjx
+    have : j = 0 ∨ j = 2 := by simp only [net3, view3, List.length_cons, List.length_nil] at hj hjx; omega
+    rcases this with rfl | rfl
+    · refine ⟨ns3a, rfl, stok3a, [tok3], [], false, 66, rfl, ?_, ?_, rfl, Nat.le_refl _, ?_, ?_, rfl, .inr ⟨?_, by decide⟩, ?_, ?_, ?_⟩
+      · intro o ho; simp only [List.mem_singleton] at ho; subst ho; exact .inl rfl
+      · intro t ht; cases ht
+      · intro o ho hs; simp only [net3, List.mem_singleton] at ho; subst ho; decide
+      · intro t rest hrs; cases hrs
+      · intro t ht; cases ht
+      · intro t ht; cases ht
+      · rintro ⟨t, a, hl, hb⟩
+        simp only [net3, List.getLast?_singleton, Option.some.injEq] at hl
+        subst hl
+        exact absurd hb (tok3_not 0 (by decide) (by decide) a)
+      · simp only [Bool.false_eq_true, if_false]; exact ⟨rfl, by decide⟩
+    · refine ⟨ns3c, rfl, stok3c, [tok3], [], true, 68, rfl, ?_, ?_, rfl, Nat.le_refl _, ?_, ?_, rfl, .inl (by decide), ?_, ?_, ?_⟩
+      · intro o ho; simp only [List.mem_singleton] at ho; subst ho; right; decide
+      · intro t ht; cases ht
+      · intro o ho hs; simp only [net3, List.mem_singleton] at ho; subst ho; cases hs
+      · intro t rest hrs; cases hrs
+      · intro t ht; cases ht
+      · rintro ⟨t, a, hl, hb⟩
+        simp only [net3, List.getLast?_singleton, Option.some.injEq] at hl
+        subst hl
+        exact absurd hb (tok3_not 2 (by decide) (by decide) a)
+      · simp only [if_true]; exact ⟨⟨none, 0, rfl⟩, by decide⟩
+  · intro j hj
+    have : j = 0 ∨ j = 1 ∨ j = 2 := by simp only [net3, List.length_cons, List.length_nil] at hj; omega
+    rcases this with rfl | rfl | rfl <;> decide
+  · intro t ht; simp only [net3, List.mem_singleton] at ht; subst ht; decide
+  · unfold PhaseOkN
+    show _ ∧ _
+    exact ⟨⟨_, _, rfl⟩, rfl, ⟨3, rfl⟩, by decide, by decide, by decide, by decide, by decide, by decide⟩
+
+def evs3 : List (Nat × Int) := [(0, 80), (2, 110), (1, 137), (0, 150), (2, 170), (1, 200), (0, 230)]
+
+theorem sched3 : SchedN cfg2.P net3 view3.tl evs3 :=
+  scheduleN_of_times _ _ _ _ (by
+    show SchedNT 100 3 [0, 70, 68] 70 evs3
+    simp [SchedNT, evs3]
+    decide)
+
+example : GoodRunN cfg2 M3 adr3 net3 5 (cEnd cfg2 tok3) evs3 :=
+  n_station_ring_run cfg2 cfg2_ok (by decide) M3 adr3 net3 view3 ninv3
+    (by intro st hst; simp only [net3, List.mem_cons, List.mem_nil_iff, or_false] at hst; rcases hst with rfl | rfl | rfl <;> rfl)
+    trivial evs3 sched3
+
+/-! Non-vacuity with application traffic: as above, but station 5 (the holder) has one application whose script
+sends an SDN telegram to address 9 (no reply expected), then an SRD request to station 3 (a master: not answered,
+times out), then declines. -/
+def hSDN : Header := { da := 9, sa := 5, dsap := none, ssap := none, fc := .request .inactive .sdnLow }
+def hSRD : Header := { da := 3, sa := 5, dsap := none, ssap := none, fc := .request .first .srdLow }
+def appsEx : Apps := [[.send hSDN [1, 2], .send hSRD [], .decline]]
+
+theorem appsEx_ok : AnsOk AppP appsEx ∧ ScriptsOk appsEx := by
+  constructor
+  · intro script hs ans ha h pdu he
+    simp only [appsEx, List.mem_singleton] at hs
+    subst hs
+    simp only [List.mem_cons, List.mem_nil_iff, or_false] at ha
+    rcases ha with rfl | rfl | rfl
+    · cases he; exact ⟨by decide, by decide, fun fcb hc => by cases hc⟩
+    · cases he; exact ⟨by decide, by decide, fun fcb hc => by cases hc⟩
+    · cases he
+  · intro script hs ans ha h pdu he
+    simp only [appsEx, List.mem_singleton] at hs
+    subst hs
+    simp only [List.mem_cons, List.mem_nil_iff, or_false] at ha
+    rcases ha with rfl | rfl | rfl
+    · cases he; decide
+    · cases he; decide
+    · cases he
+
+def ns3b' : NetStation := { s := s3b, apps := appsEx, online := true }
+def net3a : Net := { bus := { rate := 500000, txs := [tok3], seen := [0, 70, 68] }, stations := [ns3a, ns3b', ns3c] }
+def view3a : NView := { x := 1, sx := ns3b', pre := [], tr := tok3, ph := .hold 70, H := 236, Lo := 136, tl := 70 }
+
+theorem s3b_inv' : Inv s3b appsEx := by
+  have h := s3b_inv
+  exact ⟨h.addr, h.hsa, h.ring, h.off, h.gap, h.await1, h.await2, fun _ => by decide, fun a d ha => by simp [s3b] at ha,
+    appsEx_ok.2, h.noPassive⟩
+
+theorem ninv3a : NInv cfg2 M3 adr3 net3a view3a := by
+  have h := ninv3
+  exact ⟨h.ring, h.xlt, rfl, ⟨rfl, rfl, appsEx_ok.1, s3b_inv', rfl, rfl, rfl, rfl, ring3_view 5 (by decide), by decide⟩,
+    h.log, h.txs, h.doneX, h.ownX, (fun j hj hjx => by
+      have : j = 0 ∨ j = 2 := by simp only [net3a, view3a, List.length_cons, List.length_nil] at hj hjx; omega
+      rcases this with rfl | rfl
+      · obtain ⟨st, hst, hL⟩ := h.lis 0 (by decide) (by decide)
+        exact ⟨st, hst, hL⟩
+      · obtain ⟨st, hst, hL⟩ := h.lis 2 (by decide) (by decide)
+        exact ⟨st, hst, hL⟩), h.tls, h.tlt, rfl, rfl, h.ph⟩
+
+example : GoodRunA cfg2 M3 adr3 net3a 5 (cEnd cfg2 tok3) 0 evs3 :=
+  n_station_ring_run_apps cfg2 cfg2_ok (by decide) M3 adr3 net3a view3a ninv3a evs3
+    (scheduleN_of_times _ _ _ _ (by
+      show SchedNT 100 3 [0, 70, 68] 70 evs3
+      simp [SchedNT, evs3]
+      decide))
 
 end PV.C01
